@@ -465,6 +465,72 @@ func (b *builder) dataOps(id int, d *dataCodecDef, c valCase) {
 	})
 }
 
+// invalidOps: headers that must be REJECTED (unsupported protocol versions, unknown opcodes, opcodes of
+// the wrong direction). Their sequential reference is the error; they run next to goroutines that use
+// valid versions, so anything that remembers "the last version checked" gets both kinds interleaved.
+func (b *builder) invalidOps(r *mon.Rand) {
+	hdr := func(versionByte, flags byte, opcode byte, v3plus bool) []byte {
+		h := []byte{versionByte, flags}
+		if v3plus {
+			h = append(h, 0, byte(r.Intn(100)))
+		} else {
+			h = append(h, byte(r.Intn(100)))
+		}
+		h = append(h, opcode, 0, 0, 0, 0)
+		return append(h, r.Bytes(8)...) // a few trailing bytes that must not be consumed as a body
+	}
+	cases := []struct {
+		kind string
+		raw  []byte
+	}{
+		{"INVALID/version7/request", hdr(7, 0, byte(primitive.OpCodeOptions), true)},
+		{"INVALID/version7/response", hdr(0x87, 0, byte(primitive.OpCodeReady), true)},
+		{"INVALID/version1/request", hdr(1, 0, byte(primitive.OpCodeOptions), false)},
+		{"INVALID/version6/request", hdr(6, 0, byte(primitive.OpCodeQuery), true)},
+		{"INVALID/dse3/request", hdr(0b1000011, 0, byte(primitive.OpCodeOptions), true)},
+		{"INVALID/version0/response", hdr(0x80, 0, byte(primitive.OpCodeReady), true)},
+		{"INVALID/v4/opcode0x1f", hdr(4, 0, 0x1f, true)},
+		{"INVALID/v4/response-opcode-in-request", hdr(4, 0, byte(primitive.OpCodeReady), true)},
+		{"INVALID/v3/request-opcode-in-response", hdr(0x83, 0, byte(primitive.OpCodeQuery), true)},
+		{"INVALID/v5/no-beta-flag", hdr(5, 0, byte(primitive.OpCodeOptions), true)},
+	}
+	for _, cs := range cases {
+		raw, kind := cs.raw, cs.kind
+		b.add(idPlain, "DecodeFrame", kind, false, func() (interface{}, error) {
+			src := bytes.NewReader(raw)
+			f, err := fcPlain.DecodeFrame(src)
+			return decoded{f, src.Len()}, err
+		})
+		b.add(idRaw, "DecodeRawFrame", kind, false, func() (interface{}, error) {
+			src := bytes.NewReader(raw)
+			f, err := fcRaw.DecodeRawFrame(src)
+			return decoded{f, src.Len()}, err
+		})
+		b.add(idLz4, "DecodeHeader", kind, false, func() (interface{}, error) {
+			src := bytes.NewReader(raw)
+			h, err := fcLz4.DecodeHeader(src)
+			return decoded{h, src.Len()}, err
+		})
+	}
+	for _, v := range []primitive.ProtocolVersion{7, 1, 6, 0b1000011, 0} {
+		v := v
+		f := frame.NewFrame(v4, int16(r.Intn(100)), &message.Options{})
+		f.Header.Version = v
+		kind := fmt.Sprintf("INVALID/encode-version-%d", v)
+		b.add(idSnappy, "EncodeFrame", kind, false, func() (interface{}, error) {
+			var buf bytes.Buffer
+			err := fcSnappy.EncodeFrame(f, &buf)
+			return buf.Bytes(), err
+		})
+		rf := &frame.RawFrame{Header: &frame.Header{Version: v, OpCode: primitive.OpCodeOptions, StreamId: 1}, Body: []byte{}}
+		b.add(idRaw, "EncodeRawFrame", kind, false, func() (interface{}, error) {
+			var buf bytes.Buffer
+			err := fcRaw.EncodeRawFrame(rf, &buf)
+			return buf.Bytes(), err
+		})
+	}
+}
+
 type bodyCompressor interface {
 	CompressWithLength(source io.Reader, dest io.Writer) error
 	DecompressWithLength(source io.Reader, dest io.Writer) error
@@ -574,6 +640,9 @@ func buildCalls(seed int64, g int) []*call {
 			b.dataOps(idData[i], &dataCodecs[i], c)
 		}
 	}
+	if g%4 == 3 {
+		b.invalidOps(r)
+	}
 	inputs := []struct {
 		kind string
 		data []byte
@@ -582,6 +651,13 @@ func buildCalls(seed int64, g int) []*call {
 		{"text-2k", []byte(text(r, 500+r.Intn(2000)))},
 		{"semi-6k", semi(r, 1000+r.Intn(6000))},
 		{"frame-body", []byte(text(r, 100) + string(r.Bytes(200)))},
+	}
+	for lvl := 0; lvl < 2; lvl++ { // inputs that compress a lot, with different ratios
+		k, d := compressible(r, 400+r.Intn(3000), g+lvl)
+		inputs = append(inputs, struct {
+			kind string
+			data []byte
+		}{k, d})
 	}
 	for i, in := range inputs {
 		if (i+g)%2 == 0 && keep(i/2+2) {
